@@ -539,6 +539,29 @@ Proof.
   destruct (compose_ranges r1 r2); reflexivity.
 Qed.
 
+(* the names of the bounds of a slice parameter: lower name 0, upper name = number of positions of
+   that dimension minus one; of a range parameter: the bounds themselves *)
+Theorem slice_dim_name_spec : forall r d,
+  (d < length r)%nat ->
+  let '(a, b) := nth d r (0, 0) in
+  is_s32 (b - a) -> is_s32 (a - b) ->
+  slice_dim_name (flatten r) (d * 2) = 0 /\
+  slice_dim_name (flatten r) (d * 2 + 1) = range_len a b - 1 /\
+  range_dim_name (flatten r) (d * 2) = a /\
+  range_dim_name (flatten r) (d * 2 + 1) = b.
+Proof.
+  intros r d Hd. destruct (nth d r (0, 0)) as [a b] eqn:E. intros H1 H2.
+  destruct (vec_layout r d) as [L1 L2]. rewrite E in L1, L2. cbn [fst snd] in L1, L2.
+  unfold slice_dim_name, range_dim_name.
+  assert (Ev : Nat.even (d * 2) = true).
+  { rewrite Nat.mul_comm. rewrite Nat.even_mul. reflexivity. }
+  assert (Od : Nat.even (d * 2 + 1) = false).
+  { rewrite Nat.add_1_r, Nat.even_succ, <- Nat.negb_even, Ev. reflexivity. }
+  rewrite Ev, Od. replace (d * 2 + 1 - 1)%nat with (d * 2)%nat by lia.
+  rewrite L1, L2. cbv zeta. split; [reflexivity|]. split; [|tauto].
+  unfold range_len. destruct (Z.ltb_spec a b); rewrite s32_small by assumption; lia.
+Qed.
+
 (* distinct values in every slot: any mix-up of slots changes what is read *)
 Example vec_layout_example :
   flatten [(5, 1); (10, 13); (7, 2)] = [5; 1; 10; 13; 7; 2] /\
